@@ -1,21 +1,24 @@
 """C10 — parse results are fixed points: re-parsing or validating changes nothing.
 
-  MC      tlc MC_Types (cfg MC_Types_c10_*): the invariants Idempotent (AlgParse(t, AlgParse(t, x)) = AlgParse(t, x))
-          and DumpStable (the config representation of a result is a fixed point of dump o parse) are checked by
-          TLC on every (type, input) of the bounded grammar, next to the C02 invariants they rest on; every case
-          that the Alg layer accepts is printed.
-  REPLAY  (spec -> code) every printed case is executed on the real jsonargparse through parse_object and, for
-          texts, parse_args; on the accepted result: parser.validate(cfg), parser.parse_object(cfg) == cfg,
+  MC      tlc MC_Types (cfg MC_Types_c10_*): the laws Idempotent (AlgParse(t, AlgParse(t, x)) = AlgParse(t, x)) and
+          DumpStable (the config representation of a result is a fixed point of dump o parse) are checked by TLC on every
+          (type, default, input) of the bounded grammar, also for the key NOT given (defaults filled in by parse_object /
+          parse_args); every case that the Alg layer accepts is printed.
+  REPLAY  (spec -> code) every printed case is executed on the real jsonargparse:
+            given values     parse_object({key: x}) and, for texts, parse_args(['--key=' + text]); accepted dict values are also
+                             written to a config FILE that is given to an enable_path=True argument (result with __path__ meta);
+            key not given    parse_object({}) and parse_args([]) with the default declared in three ways: add_argument(default=),
+                             add_class_arguments of a class whose signature has the default, and a class-typed option;
+          on the accepted result: parser.validate(cfg), parser.parse_object(cfg) == cfg (meta included, kind-exact),
           dump -> parse_string -> dump byte for byte (format yaml and json).
   TRACE   (code -> spec) the same for seeded random type hints up to depth 4.
-  Every recorded observation (type, first result, validate, second result, dumps) is validated by TLC against
-  Trace_Types.CheckFix: the Ref clauses (validate passes, second = first, dumps identical) decide the verdict,
-  the Alg clauses (the transcription predicts the same second result and config representation) are drift.
+  Every recorded observation is validated by TLC against Trace_Types.CheckFix: the Ref clauses (validate passes, second =
+  first, dumps identical) decide the verdict, the Alg clauses (the transcription predicts the same first / second result and
+  config representation) are drift.
 """
 from __future__ import annotations
 
 import json
-import multiprocessing as mp
 import os
 import sys
 
@@ -25,28 +28,68 @@ from ..lib import common, tlc
 from ..lib.evidence import Report, machinery_failure
 from . import c02 as ty  # gamma / alpha / generators of the Types subsystem (also checks the import of jsonargparse)
 
-from jsonargparse import ArgumentError  # noqa: E402
+from jsonargparse import ArgumentError, ArgumentParser  # noqa: E402
 
 PID = "C10"
-NONE = {"k": "none", "v": 0}
 KEY = ty.KEY
+NONE = ty.NONE
+_CLASSES = 0
 
 
-def observe_fix(parser, tp, x, chan):
-    """one accepted parse and what happens to its result afterwards"""
+def make_class(tp, default):
+    """a class whose signature is  __init__(self, x: tp = default), importable as harness.checks.c10.<name>"""
+    global _CLASSES
+    _CLASSES += 1
+
+    def __init__(self, x=default):
+        self.x = x
+
+    __init__.__annotations__ = {"x": tp}
+    cls = type(f"Sig{os.getpid()}_{_CLASSES}", (), {"__init__": __init__})
+    cls.__module__ = __name__
+    globals()[cls.__name__] = cls
+    return cls
+
+
+def build(tp, d, style, enable_path=False):
+    """-> (parser, key of the value, object to give to parse_object when the key itself is not given, argv for the same)"""
+    if style == "plain":
+        return ty.make_parser(tp, d, enable_path), KEY, {}, []
+    cls = make_class(tp, ty.gamma_val(d))
+    p = ArgumentParser(exit_on_error=False)
+    if style == "classargs":
+        p.add_class_arguments(cls, "c")
+        return p, "c.x", {}, []
+    p.add_argument("--c", type=cls)  # class-typed option: only the class is given, init_args come from the signature
+    path = f"{__name__}.{cls.__name__}"
+    return p, "c.init_args.x", {"c": {"class_path": path}}, [f"--c={path}"]
+
+
+def dig(tree, key):
+    for part in key.split("."):
+        tree = tree.get(part) if isinstance(tree, dict) else None
+    return tree
+
+
+def tree_of(stock, text, key):
     try:
-        if chan == "obj":
-            cfg = parser.parse_object({KEY: ty.gamma_val(x)})
-        else:
-            cfg = parser.parse_args([f"--{KEY}={x['v']}"])
+        return ty.alpha_val(dig(stock(text), key))
+    except Exception as ex:
+        return {"k": "other", "v": f"{type(ex).__name__}: {ex}"[:80]}
+
+
+def observe_fix(parser, key, call):
+    """one accepted parse (call() -> cfg) and what happens to its result afterwards"""
+    try:
+        cfg = call()
     except Exception:
         return None  # rejected: nothing to re-parse (C02 compares the verdict)
     try:
-        first = ty.alpha_val(cfg[KEY])
+        first = ty.alpha_val(cfg[key])
     except ty.NotAbstractable as ex:
         return {"error": f"result outside the model: {ex}"}
-    o = {"kind": "fix", "first": first, "vok": True, "sok": True, "second": {"k": "none", "v": 0}, "rok": True, "dsame": True,
-         "jrok": True, "jdsame": True, "draised": False, "jdraised": False, "ser": dict(NONE), "ser2": dict(NONE), "jser": dict(NONE), "jser2": dict(NONE), "notes": {}}
+    o = {"kind": "fix", "first": first, "vok": True, "sok": True, "second": dict(NONE), "rok": True, "dsame": True, "jrok": True, "jdsame": True,
+         "draised": False, "jdraised": False, "ser": dict(NONE), "ser2": dict(NONE), "jser": dict(NONE), "jser2": dict(NONE), "notes": {}}
     try:
         parser.validate(cfg.clone())
     except Exception as ex:
@@ -55,7 +98,7 @@ def observe_fix(parser, tp, x, chan):
     try:
         again = parser.parse_object(cfg.clone())
         try:
-            o["second"] = ty.alpha_val(again[KEY])
+            o["second"] = ty.alpha_val(again[key])
         except ty.NotAbstractable as ex:
             o["second"] = {"k": "other", "v": str(ex)}
         o["notes"]["py_eq"] = bool(again == cfg)
@@ -71,12 +114,12 @@ def observe_fix(parser, tp, x, chan):
             o["draised" if fmt == "yaml" else "jdraised"] = True
             o["notes"][fmt] = f"dump raised {type(ex).__name__}: {str(ex)[:200]}"
             continue
-        o[sk] = tree_of(stock, d1)
+        o[sk] = tree_of(stock, d1, key)
         try:
             back = parser.parse_string(d1)
             d2 = parser.dump(back, format=fmt)
             o[dk] = d1 == d2
-            o[sk + "2"] = tree_of(stock, d2)
+            o[sk + "2"] = tree_of(stock, d2, key)
             if d1 != d2:
                 o["notes"][fmt] = f"first dump {d1!r}, second dump {d2!r}"
         except ArgumentError as ex:
@@ -88,49 +131,94 @@ def observe_fix(parser, tp, x, chan):
     return o
 
 
-def tree_of(stock, text):
-    try:
-        return ty.alpha_val(stock(text).get(KEY))
-    except Exception as ex:
-        return {"k": "other", "v": f"{type(ex).__name__}: {ex}"[:80]}
+def jsonable(x) -> bool:
+    """can the value be written to a JSON config file as it is (no tuple / set / enum / path / non-str key)?"""
+    k = x["k"]
+    if k in ("none", "bool", "int", "str"):
+        return True
+    if k == "list":
+        return all(jsonable(e) for e in x["v"])
+    if k == "dict":
+        return all(p[0]["k"] == "str" and jsonable(p[1]) for p in x["v"])
+    return False
+
+
+_FILES = 0
+
+
+def chans(x, quick):
+    """the channels of a given value; quick: a text that is a plain scalar for the loader goes through parse_object only
+    (_check_type receives the same string either way), texts that load as null / a list / a dict go through both"""
+    if x["k"] != "str":
+        return ["obj"]
+    s = x["v"].strip()
+    if not quick or s[:1] in "[{-~" or ":" in s or s.lower() == "null":
+        return ["obj", "arg"]
+    return ["obj"]
 
 
 def _work(job):
-    t, xs = job
+    """pool worker: one (type term, default), many inputs; runs in a scratch working directory (c02.run_jobs)"""
+    global _FILES
+    t, d, xs, quick = job
     try:
         tp = ty.gamma_type(t)
         if ty.canon(ty.alpha_type(tp)) != ty.canon(t):
             return {"t": t, "error": "typing changed the hint"}
-        parser = ty.make_parser(tp)
+        parser = ty.make_parser(tp, d)
+        fparser = None
     except Exception as ex:
         return {"t": t, "error": f"add_argument: {type(ex).__name__}: {ex}"}
     out = []
     for x in xs:
-        out.append([observe_fix(parser, tp, x, ch) for ch in ty.channels(x)])
+        rows = []
+        if x["k"] == "absent":  # the key is not given: the default is filled in
+            for style in ("plain", "classargs", "subclass"):
+                try:
+                    p, key, obj, argv = build(tp, d, style)
+                except Exception as ex:
+                    rows.append((f"{style}/obj", {"error": f"{style}: {type(ex).__name__}: {str(ex)[:160]}"}, {}))
+                    continue
+                for ch in ("obj", "arg"):
+                    call = (lambda p=p, obj=obj: p.parse_object(json.loads(json.dumps(obj)))) if ch == "obj" else (lambda p=p, argv=argv: p.parse_args(list(argv)))
+                    # Alg: parse_object runs the defaults through _check_type, parse_args takes them as they are; a class-typed
+                    # option gets its init_args from a nested parse_object in both cases
+                    rows.append((f"{style}/{ch}", observe_fix(p, key, call), {"absent": True, "norm": ch == "obj" or style == "subclass", "x": dict(NONE)}))
+        else:
+            for ch in chans(x, quick):
+                call = (lambda x=x: parser.parse_object({KEY: ty.gamma_val(x)})) if ch == "obj" else (lambda x=x: parser.parse_args([f"--{KEY}={x['v']}"]))
+                rows.append((ch, observe_fix(parser, KEY, call), {"absent": False, "norm": True, "x": x}))
+            if x["k"] == "dict" and x["v"] and rows[0][1] is not None and jsonable(x):  # an accepted dict also from a config file given to an enable_path argument
+                try:
+                    fparser = fparser or ty.make_parser(tp, d, enable_path=True)
+                    _FILES += 1
+                    name = f"in{os.getpid()}_{_FILES}.json"
+                    with open(name, "w") as f:
+                        json.dump(ty.gamma_val(x), f)
+                    fx = {"k": "file", "v": [name, x]}
+                    rows.append(("file/obj", observe_fix(fparser, KEY, lambda: fparser.parse_object({KEY: name})), {"absent": False, "norm": True, "x": fx}))
+                    rows.append(("file/arg", observe_fix(fparser, KEY, lambda: fparser.parse_args([f"--{KEY}={name}"])), {"absent": False, "norm": True, "x": fx}))
+                except Exception as ex:
+                    rows.append(("file/obj", {"error": f"file channel: {type(ex).__name__}: {str(ex)[:160]}"}, {}))
+        out.append(rows)
     return {"t": t, "out": out}
 
 
-def run_jobs(jobs, procs=16):
-    if not jobs:
-        return []
-    with mp.get_context("fork").Pool(min(procs, len(jobs))) as pool:
-        return pool.map(_work, jobs, chunksize=max(1, len(jobs) // (procs * 8)))
-
-
-DUMP_KEYS = {"setOrder": "set-order", "reparseShift": "reparse-first-match-shift", "firstMatch": "union-first-match", "leftTuple": "tuple-left-unserialised", "jsonKeyCollision": "json-key-collision", "serLenient": "serialize-lenient-member", "setListing": "set-listing-order", "serCollision": "set-written-with-duplicates", "yamlFloatStr": "yaml-float-string", "inPlace": "reparse-union-in-place",
-             "leftObject": "enum-member-first-leaves-object", "leftSet": "enum-member-first-leaves-set",
+DUMP_KEYS = {"setOrder": "set-order", "reparseShift": "reparse-first-match-shift", "jsonKeyCollision": "json-key-collision", "firstMatch": "union-first-match",
+             "leftTuple": "tuple-left-unserialised", "serLenient": "serialize-lenient-member", "setListing": "set-listing-order",
+             "serCollision": "set-written-with-duplicates", "yamlFloatStr": "yaml-float-string", "inPlace": "reparse-union-in-place",
+             "leftObject": "enum-member-first-leaves-object", "leftSet": "enum-member-first-leaves-set", "rawDefault": "raw-default", "noneOverDefault": "none-over-default",
              "excLeak": "reparse-union-vals-last", "origNested": "reparse-union-orig-nested", "litEq": "reparse-literal-eq", "dictKey": "reparse-dict-key"}
 
 
 def main(argv):
     tier = "thorough" if (argv and argv[0] == "thorough") else "quick"
     rep = Report(PID, tier)
-    ty.load_known(rep)
     rnd = common.rng(PID)
-    workers = int(os.environ.get("VERIF_TLC_WORKERS", "16"))
+    workers = int(os.environ.get("VERIF_TLC_WORKERS", "4" if tier == "quick" else "16"))  # quick: fewer workers cost fewer CPU seconds
     rep.assumptions = [
-        "one key of the given type per parser, parser_mode yaml, default None; results are compared as abstract values (kind and value at every level), which is stricter than Python's == (1 == 1.0 == True)",
-        "validate, the second parse and the dumps each get a clone of the result, so that one observation cannot disturb the next",
+        "one value per parser (key k; c.x / c.init_args.x for the class styles), parser_mode yaml; results are compared as abstract values (kind and value at every level, __path__ meta included), which is stricter than Python's == (1 == 1.0 == True)",
+        "validate, the second parse and the dumps each get a clone of the result, so that one observation cannot disturb the next; every worker runs in its own scratch working directory",
         "the byte-level behaviour of PyYAML / json is not modelled: the specification predicts the dumped TREE (checked as drift), the byte comparison is real against real and TLC evaluates the recorded outcome",
         "texts come from the vocabulary of spec/Types.tla or are plain words; input sets are excluded from the random traces; see C02 for the grammar",
     ]
@@ -145,112 +233,140 @@ def main(argv):
                           {"tlc_errors": mc.errors[:5], "counterexample": mc.cex[:4000]})
             return rep.finish()
         machinery_failure(PID, "TLC failed on MC_Types:\n" + mc.stdout[-3000:])
-    types = [p["type"] for p in mc.printed if isinstance(p, dict) and "type" in p]
+    types = [p for p in mc.printed if isinstance(p, dict) and "type" in p]
     cases = [p for p in mc.printed if isinstance(p, dict) and "acc" in p]
+    absent = [p for p in mc.printed if isinstance(p, dict) and "nok" in p]
     vocab = [p for p in mc.printed if isinstance(p, dict) and "vocabulary" in p]
-    if not cases or not vocab or not types or any(not c["aok"] for c in cases):
-        machinery_failure(PID, f"TLC printed {len(types)} types, {len(cases)} accepted cases, {len(vocab)} vocabularies")
+    if not cases or not vocab or not types or not absent or any(not c["aok"] for c in cases):
+        machinery_failure(PID, f"TLC printed {len(types)} types, {len(cases)} accepted cases, {len(absent)} absent cases, {len(vocab)} vocabularies")
     ty.TEXTS = sorted({row[0] for row in vocab[0]["vocabulary"]} | ty.FIXED_WORDS)
-    cases.sort(key=lambda c: (ty.canon(c["t"]), ty.canon(ty.norm(c["x"]))))
 
     by_type = {}
-    for c in cases:
-        by_type.setdefault(ty.canon(c["t"]), []).append(c)
-    jobs = [(cs[0]["t"], [c["x"] for c in cs]) for _, cs in sorted(by_type.items())]
-    ntypes, per_type = (200, 14) if tier == "quick" else (2500, 20)
+    for c in cases + absent:
+        by_type.setdefault((ty.canon(c["t"]), ty.canon(c["d"])), []).append(c)
+    jobs = []
+    for _, cs in sorted(by_type.items()):
+        xs = sorted((c["x"] for c in cs), key=lambda x: ty.canon(ty.norm(x)) if x["k"] != "absent" else "")
+        jobs.append((cs[0]["t"], cs[0]["d"], xs))
+    ntypes, per_type = (80, 10) if tier == "quick" else (2500, 20)
     rjobs = ty.random_cases(rnd, ntypes, per_type)
-    results = run_jobs(jobs + rjobs)
+    rjobs = [(t, d, xs + ([{"k": "absent", "v": 0}] if d["k"] != "none" else [])) for t, d, xs in rjobs]
+    results = ty.run_jobs([(t, d, xs, tier == "quick") for t, d, xs in jobs + rjobs], work=_work)
 
     obs, meta = [], []
-    stats = {"model_cases_alg_accepts": len(cases), "model_types": len(types), "rejected_by_real_code": 0, "py_eq_false": 0, "unbuildable_types": 0,
-             "random_types": len(rjobs)}
-    for n, ((t, xs), r) in enumerate(zip(jobs + rjobs, results)):
+    stats = {"model_cases_alg_accepts": len(cases), "model_cases_key_not_given": len(absent), "model_types": len(types), "rejected_by_real_code": 0,
+             "py_eq_false": 0, "unbuildable_types": 0, "random_types": len(rjobs), "by_channel": {}}
+    for n, ((t, d, xs), r) in enumerate(zip(jobs + rjobs, results)):
         src = "model" if n < len(jobs) else "random"
         if "error" in r:
             stats["unbuildable_types"] += 1  # reported by C02
             continue
-        for x, outs in zip(xs, r["out"]):
-            for ch, o in zip(ty.channels(x), outs):
+        for x, rows in zip(xs, r["out"]):
+            for ch, o, how in rows:
                 if o is None:
                     stats["rejected_by_real_code"] += src == "model"
                     continue
                 if "error" in o:
-                    rep.violation(f"unknown-result:{ty.shape(t, x)}", o["error"], {"t": t, "x": x})
+                    if o["error"].startswith("result outside"):
+                        rep.violation(f"unknown-result:{ty.shape(t, x)}", o["error"], {"t": t, "x": x})
+                    else:
+                        stats["harness_errors"] = stats.get("harness_errors", 0) + 1
+                        stats.setdefault("harness_error_samples", []).append(o["error"])
                     continue
                 notes = o.pop("notes")
                 if notes.get("py_eq") is False:
                     stats["py_eq_false"] += 1
-                o["t"] = t
+                o.update({"t": t, "d": d, "absent": how["absent"], "norm": how["norm"], "x": how["x"]})
                 obs.append(o)
                 meta.append({"x": x, "chan": ch, "notes": notes, "src": src})
-                if o["first"]["k"] in ("list", "tuple", "set", "dict", "enum") or t["k"] == "union":
-                    rep.note_nontrivial(ty.canon(t) + "|" + ty.canon(o["first"]))
+                stats["by_channel"][ch] = stats["by_channel"].get(ch, 0) + 1
+                if o["first"]["k"] in ("list", "tuple", "set", "dict", "enum", "path") or t["k"] == "union" or how["absent"]:
+                    rep.note_nontrivial(ty.canon(t) + "|" + ty.canon(d) + "|" + ch + "|" + ty.canon(o["first"]))
+    if stats.get("harness_errors"):
+        stats["harness_error_samples"] = stats["harness_error_samples"][:5]
     stats["observations_model"] = sum(1 for m in meta if m["src"] == "model")
     stats["observations_random"] = sum(1 for m in meta if m["src"] == "random")
 
-    rejects = ty.validate_observations(rep, obs, "c10", workers)
+    uniq, index = ty.dedupe(obs)
+    stats["distinct_observations_validated_by_tlc"] = len(uniq)
+    rejects = ty.validate_observations(rep, uniq, "c10", workers)
     by_obs = {}
     for kind, idx, clause in rejects:
         by_obs.setdefault(idx, []).append(clause)
-    for n, o in enumerate(obs, 1):
-        cl = by_obs.get(n, [])
+    for n, o in enumerate(obs):
+        cl = by_obs.get(index[n] + 1, [])
         if not cl:
             continue
-        m = meta[n - 1]
+        m = meta[n]
         t = o["t"]
-        info = {"type": ty.type_str(t), "t": t, "x": m["x"], "channel": m["chan"], "python": ty.python_repro(t, m["x"], m["chan"]) + "  # then validate / parse_object / dump on the result",
-                "observation": o, "notes": m["notes"], "failed_clauses": cl, "source": m["src"]}
-        where = f"{ty.type_str(t)}:{ty.canon(ty.norm(o['first']))[:60]}"
+        how = describe(o, m)
+        info = {"type": ty.type_str(t), "t": t, "d": o["d"], "x": m["x"], "channel": m["chan"], "python": how, "observation": o, "notes": m["notes"],
+                "failed_clauses": cl, "source": m["src"]}
+        where = f"{ty.type_str(t)}:{m['chan']}:{ty.canon(ty.norm(o['first']))[:60]}"
         ref = [c for c in cl if c.startswith("ref")]
         if not ref:
             rep.add_drift("real code is a fixed point as the property says, but not as the Alg transcription predicts", info)
             continue
         for c in ref:
             if c == "ref/validate":
-                rep.violation(f"validate-rejects-result:{where}", f"{ty.type_str(t)}: validate() rejects the parse result {ty.gamma_repr(o['first'])}: {m['notes'].get('validate')}", info)
+                rep.violation(f"validate-rejects-result:{where}", f"{how}: validate() rejects the parse result {ty.gamma_repr(o['first'])}: {m['notes'].get('validate')}", info)
             elif c.startswith("ref/second/as-alg/"):
-                for d in sorted(x_ for x_ in c.split("/as-alg/")[1].split("+") if x_):
-                    rep.violation(f"second-parse:{ty.DEV_KEYS.get(d, DUMP_KEYS.get(d, d))}/as-alg:{where}", f"{ty.type_str(t)}: parse_object of the result {ty.gamma_repr(o['first'])} gives "
-                                  + (ty.canon(o["second"]) if o["sok"] else "an error: " + str(m["notes"].get("second"))) + f"; named deviation {d} of spec/Types.tla", info)
+                for d_ in sorted(x_ for x_ in c.split("/as-alg/")[1].split("+") if x_):
+                    rep.violation(f"second-parse:{ty.DEV_KEYS.get(d_, DUMP_KEYS.get(d_, d_))}/as-alg:{where}", f"{how}: parse_object of the result {ty.gamma_repr(o['first'])} gives "
+                                  + (ty.canon(o["second"]) if o["sok"] else "an error: " + str(m["notes"].get("second"))) + f"; named deviation {d_} of spec/Types.tla", info)
             elif c.startswith("ref/second"):
-                rep.violation(f"second-parse/other:{where}", f"{ty.type_str(t)}: parse_object of the result {ty.gamma_repr(o['first'])} gives "
+                rep.violation(f"second-parse/other:{where}", f"{how}: parse_object of the result {ty.gamma_repr(o['first'])} gives "
                               + (ty.canon(o["second"]) if o["sok"] else "an error: " + str(m["notes"].get("second"))), info)
             elif "/as-alg/" in c:
                 fmt = "yaml" if c.startswith("ref/dump/") else "json"
-                for d in sorted(x_ for x_ in c.split("/as-alg/")[1].split("+") if x_):
-                    rep.violation(f"dump:{DUMP_KEYS.get(d, d)}/as-alg:{fmt}:{where}", f"{ty.type_str(t)}: dump -> parse -> dump ({fmt}) of {ty.gamma_repr(o['first'])} is not stable "
-                                  f"({m['notes'].get(fmt)}); named deviation {d} of spec/Types.tla", info)
+                for d_ in sorted(x_ for x_ in c.split("/as-alg/")[1].split("+") if x_):
+                    rep.violation(f"dump:{DUMP_KEYS.get(d_, d_)}/as-alg:{fmt}:{where}", f"{how}: dump -> parse -> dump ({fmt}) of {ty.gamma_repr(o['first'])} is not stable "
+                                  f"({m['notes'].get(fmt)}); named deviation {d_} of spec/Types.tla", info)
             else:
                 fmt = "yaml" if c.startswith("ref/dump/") else "json"
-                rep.violation(f"dump/other:{fmt}:{where}", f"{ty.type_str(t)}: dump -> parse -> dump ({fmt}) of {ty.gamma_repr(o['first'])} is not stable: {m['notes'].get(fmt)}", info)
+                rep.violation(f"dump/other:{fmt}:{where}", f"{how}: dump -> parse -> dump ({fmt}) of {ty.gamma_repr(o['first'])} is not stable: {m['notes'].get(fmt)}", info)
     ty.finish_stats(rep)
-    for o, m in list(zip(obs, meta))[:: max(1, len(obs) // 4)][:4]:
-        rep.sample({"type": ty.type_str(o["t"]), "input": ty.gamma_repr(m["x"]), "channel": m["chan"], "first": o["first"], "second": o["second"],
-                    "validate_ok": o["vok"], "yaml_dumps_identical": o["dsame"], "json_dumps_identical": o["jdsame"], "dumped_tree": o["ser"], "validated_by": "Trace_Types.CheckFix"})
+    picks = [i for i, m in enumerate(meta) if m["chan"] in ("file/arg", "classargs/obj", "plain/arg")][:2] + list(range(0, len(obs), max(1, len(obs) // 3)))[:3]
+    for i in picks:
+        o, m = obs[i], meta[i]
+        rep.sample({"how": describe(o, m), "first": o["first"], "second": o["second"], "validate_ok": o["vok"], "yaml_dumps_identical": o["dsame"],
+                    "json_dumps_identical": o["jdsame"], "dumped_tree": o["ser"], "validated_by": "Trace_Types.CheckFix"})
     rep.traces = len(obs)
     rep.evaluations = len(obs)
     rep.extra.update(stats)
-    rep.rule = ("cases = accepted parses: every (type hint, input) of the bounded grammar that the Alg layer accepts (printed by TLC) and seeded random hints up to depth 4, "
-                "through parse_object and, for texts, parse_args; each result is validated, parsed again as an object, dumped / re-parsed / dumped in yaml and json. "
-                "non-trivial & distinct = distinct (hint, first result) pairs whose result is a container or enum member or whose hint is a Union")
+    rep.rule = ("cases = accepted parses: every (type hint, default, input) of the bounded grammar that the Alg layer accepts (printed by TLC; accepted dict inputs also through a config file given "
+                "to an enable_path argument; the key not given with the default declared by add_argument, by add_class_arguments and by a class-typed option) and seeded random hints up to "
+                "depth 4, through parse_object and parse_args; each result is validated, parsed again as an object, dumped / re-parsed / dumped in yaml and json. "
+                "non-trivial & distinct = distinct (hint, default, channel, first result) whose result is a container, enum member or path, whose hint is a Union, or whose key was not given")
     rep.exhaustive = False
-    rep.explanation = (f"MC_Types checked Idempotent and DumpStable on all {mc.distinct - len(types)} (type, input) cases of its bounded grammar ({len(types)} type terms); "
-                       f"the {len(cases)} cases that Alg accepts were replayed on the real code and {stats['observations_random']} further accepted parses came from {len(rjobs)} random hints; "
-                       f"all {len(obs)} observations were validated by TLC against Trace_Types.CheckFix. The grammar is unbounded, so the run is not exhaustive for the property.")
+    rep.explanation = (f"MC_Types checked Idempotent and DumpStable on all {mc.distinct - len(types)} cases of its bounded grammar ({len(types)} (type term, default) pairs); "
+                       f"the {len(cases)} cases that Alg accepts and the {len(absent)} key-not-given cases were replayed on the real code and {stats['observations_random']} further accepted parses came "
+                       f"from {len(rjobs)} random hints; all {len(obs)} observations ({len(uniq)} distinct) were validated by TLC against Trace_Types.CheckFix. "
+                       "The grammar is unbounded, so the run is not exhaustive for the property.")
     return rep.finish()
 
 
+def describe(o, m) -> str:
+    t, d = o["t"], o["d"]
+    dflt = f", default={ty.gamma_repr(d)}" if d["k"] != "none" else ""
+    ch = m["chan"]
+    if o["absent"]:
+        style, c = ch.split("/")
+        decl = {"plain": f"add_argument('--k', type={ty.type_str(t)}{dflt})", "classargs": f"add_class_arguments(C, 'c') with C.__init__(self, x: {ty.type_str(t)} = {ty.gamma_repr(d)})",
+                "subclass": f"add_argument('--c', type=C) with C.__init__(self, x: {ty.type_str(t)} = {ty.gamma_repr(d)}), given only the class_path"}[style]
+        return f"{decl}; {'parse_object' if c == 'obj' else 'parse_args'} without the key"
+    if ch.startswith("file/"):
+        return (f"add_argument('--k', type={ty.type_str(t)}{dflt}, enable_path=True); a config file holding {ty.gamma_repr(m['x'])} given by name through "
+                f"{'parse_object' if ch.endswith('obj') else 'parse_args'}")
+    return ty.python_repro(t, m["x"], ch, d)
+
+
 def replay(path) -> int:
-    """./check C10 --replay <file>: run the recorded case again on the real code and show it next to the record."""
+    """./check C10 --replay <file>: show the recorded case (its `python` field says how to run it by hand)"""
     rec = json.loads(open(path).read())
     case = rec.get("case", {})
-    print(f"property={rec.get('property')} key={rec.get('key')}\n  what: {rec.get('what')}")
-    if "t" in case and "x" in case:
-        tp = ty.gamma_type(case["t"])
-        ch = case.get("channel") or "obj"
-        now = observe_fix(ty.make_parser(tp), tp, case["x"], ch)
-        print(f"  now ({ch}): {case.get('python')}\n    -> {json.dumps(now)[:3000]}")
-        print("  recorded: " + json.dumps({k: case[k] for k in ("observation", "notes", "failed_clauses") if k in case})[:3000])
+    print(f"property={rec.get('property')} key={rec.get('key')}\n  what: {rec.get('what')}\n  how: {case.get('python')}")
+    print("  recorded: " + json.dumps({k: case[k] for k in ("observation", "notes", "failed_clauses") if k in case})[:3000])
     return 0
 
 
